@@ -157,6 +157,10 @@ def check_toggle(src, opts, toggle, size, case):
     if toggle == "filter_unused_linenum":
         if "\n".join(map(strip_label, oa.split("\n"))) != "\n".join(map(strip_label, ob.split("\n"))):
             raise Violation("filter_unused_linenum changes more than labels", case)
+        # the filter only *removes* labels: a line that is labelled with it is labelled without it
+        for ra, rb in zip(oa.split("\n"), ob.split("\n")):
+            if rb != strip_label(rb) and ra == strip_label(ra):
+                raise Violation("with filter_unused_linenum line %r carries a label that it does not carry without the filter" % rb[:60], case)
         # only *unused* labels may go: every jump target of the filtered output still labels a line
         try:
             lines = parse.parse_program(ob)
